@@ -456,6 +456,17 @@ def run(ctx):
             elif explicit or author:
                 r4.ok(f"K8 {s.fi.fq}:{norm(s.call)[:60]}", "no explicit keyword can collide with an author-controlled key", s.loc)
     rules.append(r4)
+    # duplicate choice names are rejected whether or not the rows carry labels (shared with C20.R2)
+    from .c20 import choice_list_obligations
+    r6 = Rule("C17", "C17.R6", "duplicate choice names are rejected on every list shape", floor=1,
+              necessary="a duplicate accepted because one of the rows lacks a label yields two items with one value")
+    choice_list_obligations(ctx, r6, "C17.R6")
+    rules.append(r6)
+    from ..rowloop import row_prologue_obligations
+    r7 = Rule("C17", "C17.R7", "rows without a type are rejected (comment rows skipped) before anything else reads them", floor=10,
+              necessary="a question row whose type cell is empty that is skipped instead of rejected silently vanishes from the form")
+    row_prologue_obligations(ctx, r7, "C17.R7")
+    rules.append(r7)
     return rules
 
 
